@@ -85,6 +85,12 @@ def run(spec_path, cfg_path, *, workers=8, timeout=900, dump=False, scratch=None
     to look at result.violated); all other abnormal endings raise MachineryError.
     """
     own_scratch = scratch is None
+    # A time-out is a guard against a hung model checker, not a performance claim: on an overloaded machine (many
+    # checks at once) the limit is stretched with the load per core, up to 4x, so that load alone never fails a check
+    try:
+        timeout = int(timeout * max(1.0, min(4.0, 1.5 * os.getloadavg()[0] / (os.cpu_count() or 1))))
+    except OSError:
+        pass
     if scratch is None:
         scratch = tempfile.mkdtemp(prefix="verif-tlc-")
     os.makedirs(scratch, exist_ok=True)
